@@ -55,9 +55,23 @@ CHECKS['C01'] = {
                  'against a reference interpreter',
 }
 
+CHECKS['C03'] = {
+    'text': 'Bounded symbolic model checking of ORDER BY / DISTINCT / LIMIT in execute_select: every two-row table '
+            '(six symbolic cells or NULLs) under key lists of 1..3 keys in every form (position, name, hidden column, '
+            'expression) with symbolic ASC/DESC bits, against a comparator-based reference; the NULL-first key '
+            'contract; DISTINCT, LIMIT and their order of application on 2-4 row tables; merging of ORDER BY keys '
+            'with targets for every column pair of every ledger table.',
+    'design_ref': 'DESIGN.md section 5, C03',
+    'note': _COMMON_NOTE + ' Any row count follows from the two-row result by the stable-sort lemma (list.sort is '
+            'documented stable); 3-row tables cross-check it in the thorough tier. Hashed cells (DISTINCT) range over '
+            '{NULL, 0, 1}.',
+    'technique': 'symbolic execution (CrossHair/z3) of compiler + execute_select against a reference interpreter; '
+                 'pairwise-sort lemma',
+}
+
 NOT_APPLICABLE = {
     pid: 'check under construction in this session; not claimed yet'
-    for pid in ['C02', 'C03', 'C04', 'C05', 'C06', 'C07', 'C08', 'C09', 'C11', 'C12', 'C13',
+    for pid in ['C02', 'C04', 'C05', 'C06', 'C07', 'C08', 'C09', 'C11', 'C12', 'C13',
                 'C14', 'C15', 'C16', 'C17', 'C18', 'C19', 'C20']
 }
 
